@@ -277,11 +277,18 @@ func (v *Verifier) solveAll(x *Exec, obls []*Obligation, timeoutS int, stats *So
 	{
 		sem1 := make(chan struct{}, 5)
 		var wg1 sync.WaitGroup
+		raced := 0
 		for _, o := range obls {
 			if o.Status != "unknown" || o.ExpectSat {
 				continue
 			}
 			if c, ok := cache[o.Script]; ok && c != o {
+				continue
+			}
+			// a function that leaves this many obligations open is broken, not slow:
+			// the rest are reported as they stand instead of being raced for minutes
+			raced++
+			if raced > 600 {
 				continue
 			}
 			wg1.Add(1)
